@@ -486,10 +486,16 @@ func registerStrings(e *Engine) {
 	reg("(*encoding/base64.Encoding).EncodeToString", func(in *Interp, _ *frame, _ *ssa.Function, args []Value, pos tokenPos) Value {
 		s := in.toStrArg(args[1], pos)
 		n := s.Cap()
-		return in.ufStr("base64.enc", 0, (n+2)/3*4, in.isCleanByte, []*Str{s}, nil)
+		res := in.ufStr("base64.enc", 0, (n+2)/3*4, in.isCleanByte, []*Str{s}, nil)
+		in.regInverse(res, invRec{kind: "b64", s: s})
+		return res
 	})
 	reg("(*encoding/base64.Encoding).DecodeString", func(in *Interp, _ *frame, _ *ssa.Function, args []Value, pos tokenPos) Value {
 		s := args[1].(*Str)
+		if r, found := in.lookupInverse(s, "b64"); found {
+			// DecodeString(EncodeToString(x)) == x
+			return TupleV{E: []Value{BytesV{S: r.s}, IfaceV{}}}
+		}
 		ok := in.uf("base64.dec.ok", 0, in.strTerms(s)...)
 		if in.branch(ok) {
 			d := in.ufStr("base64.dec", 0, s.Cap(), nil, []*Str{s}, nil)
